@@ -273,6 +273,22 @@ func init() {
 				}
 				c01Run(c, GenSeq(c.R, &cfg, o.Ref()), o)
 			}},
+			{Name: "names-that-differ-by-case-folding-or-normalisation", Count: func(t core.Tier) int {
+				if t == core.Thorough {
+					return 400000
+				}
+				return 15000
+			}, Run: func(c *core.Ctx, idx int) {
+				// members whose names a careless comparison takes for the same name (gen.NearMissKeys); absent members
+				// addressed by near-miss pointers are then names of this kind
+				o := V5Opts{NegIdx: c.R.Intn(2) == 0, EscapeHTML: c.R.Intn(2) == 0}
+				cfg := *seqCfg
+				cfg.Prof = seqCfg.Prof.With(func(p *gen.Profile) { p.Keys = gen.NearMissKeys })
+				cfg.MissRate = 30
+				cfg.NearNames = true
+				c01Run(c, GenSeq(c.R, &cfg, o.Ref()), o)
+				c.Count("near-miss-names:cases")
+			}},
 			{Name: "relocation-chains", Count: func(t core.Tier) int {
 				if t == core.Thorough {
 					return 400000
